@@ -763,7 +763,7 @@ def r_decorated(ctx: "Ctx", rule: str = "R00.D") -> None:
                 stores.setdefault(x.attr, []).append((m.relpath, x))
     # stores of the form `self.<attr> = ...` belong to the class of the method they are written in
     self_store_class: Dict[int, object] = {}
-    for g_ in ctx.prog.all_functions():
+    for g_ in ctx.prog.every_function():
         c_ = g_.cls if g_.cls is not None else (g_.parent.cls if getattr(g_, "parent", None) is not None else None)
         sn_ = ctx.an.scope(g_).selfname
         if c_ is None or sn_ is None:
